@@ -27,8 +27,9 @@ class Prop:
     GC_EVERY = 5
     RUN_TIMEOUT = 10.0
     DIGEST_EVERY = 20
-    RULE = ("seeded random histories (4-30 ops) on 2-5 PNode objects with seven observed "
-            "properties (five cached): link/list/dict/set dependency mutations incl. shared and "
+    RULE = ("seeded random histories (4-30 ops) on 2-5 PNode objects with nine observed "
+            "properties (six cached; two are declared in a base class and only their getters are "
+            "overridden, uncached->cached and cached->uncached): link/list/dict/set dependency mutations incl. shared and "
             "repeated nodes, slice assignments that keep / repeat current items (same object removed "
             "and added in one event with a different number of occurrences), equal-list "
             "reassignment, value changes, class-level _value_changed/_child_changed handlers that "
